@@ -5,13 +5,13 @@ TARGETS = {
 PROP = {
     "subchecks": [
         {"target": "c04_signals_asan", "sub": "signals",
-         "quick": {"cases": 1500, "max_size": 60, "workers": 6, "case_alarm": 60},
+         "quick": {"cases": 3000, "max_size": 60, "workers": 6, "case_alarm": 60},
          "thorough": {"cases": 30000, "max_size": 100, "workers": 8, "case_alarm": 60}},
         {"target": "c04_signals_plain", "sub": "signals",
-         "quick": {"cases": 1500, "max_size": 60, "workers": 6, "case_alarm": 60},
+         "quick": {"cases": 3000, "max_size": 60, "workers": 6, "case_alarm": 60},
          "thorough": {"cases": 30000, "max_size": 100, "workers": 8, "case_alarm": 60}},
         {"target": "c04_signals_asan", "sub": "many_loops",
-         "quick": {"cases": 1500, "max_size": 40, "workers": 2, "case_alarm": 60},
+         "quick": {"cases": 2500, "max_size": 40, "workers": 2, "case_alarm": 60},
          "thorough": {"cases": 30000, "max_size": 80, "workers": 4, "case_alarm": 60}},
     ],
     "assumptions": ["signals are raised one at a time with kill(getpid(), S) and only while no subscription change is in progress (the statement's domain); callbacks may enable/disable their own event or disable one sibling event of the same loop (whose callback for that very delivery is then left free: the order in which a loop serves the subscribers of one signal is unspecified)",
